@@ -240,9 +240,13 @@ def classify(case, ob, detail):
     k0 = ob.get("late_from", 0)
     # the payload list may contain a refused path (no expectation entry): map commands to expectations by order of file commands
     want = [list(range(len(e["selected"]))) for e in case["_expect"]]
-    early = want[:max(0, k0 - (1 if case.get("_refused") else 0))]
-    if per[:len(early)] != early:
-        return None
+    n_early = max(0, k0 - (1 if case.get("_refused") else 0))
+    late_ids = set(os.path.basename(p) for p in ob.get("late_files") or [])
+    for k, e in enumerate(case["_expect"]):
+        # a command is early if it was counted before shutdown() was first entered and none of its files was still
+        # on its way into / out of the limiter after that moment
+        if k < n_early and e["id"] not in late_ids and per[k] != want[k]:
+            return None
     return "command_received_after_counter_returned_to_zero"
 
 
